@@ -416,6 +416,11 @@ func c10Inbound(r *vfRun) {
 				return
 			}
 		}
+		if !w.hasTgt && c.Target != "" {
+			// a request with one path: nothing the client did not send may appear in the second one
+			r.fail("C10/target-wrong", w.method+"-"+op.K+"-stale", "request %v carries one path, but the handler's Request.Target is %q", q, c.Target)
+			return
+		}
 		if w.hasTgt {
 			if m := c10PathOK(c.Target); m != "" || c.Target != w.target {
 				r.fail("C10/target-wrong", w.method+"-"+op.K, "request %v with start directory %q: handler Target %q (%s), want %q", q, startRaw, c.Target, m, w.target)
